@@ -81,7 +81,7 @@ var Regions = map[string]Region{
 		DefaultUplink: chans(0, 5, 868900000, 869100000), DefaultDown: chans(0, 5, 868900000, 869100000), DRs: euDRs()},
 	"KR920": {Name: "KR920", RX1Kind: "eu", EURows: []int{0, 1, 2, 3, 4, 5}, MaxPosOffset: 5, PingSlotFixed: 923100000, RX2Freq: 921900000, RX2DR: 0,
 		DefaultUplink: chans(0, 5, 922100000, 922300000, 922500000), DefaultDown: chans(0, 5, 922100000, 922300000, 922500000), DRs: lora125(0, 12, 11, 10, 9, 8, 7)},
-	"IN865": {Name: "IN865", RX1Kind: "eu", EURows: []int{0, 1, 2, 3, 4, 5}, // DR7 (FSK): DR6 is RFU, so the row is not DR-offset; judged structurally only
+	"IN865": {Name: "IN865", RX1Kind: "in865", // RP002 IN865 table: offsets 0..5 lower the data-rate (DR6 is RFU: DR7-1 is DR5), offsets 6,7 raise it by 1,2 up to DR5
 		MaxPosOffset: 5, PingSlotFixed: 866550000, RX2Freq: 866550000, RX2DR: 2,
 		DefaultUplink: chans(0, 5, 865062500, 865402500, 865985000), DefaultDown: chans(0, 5, 865062500, 865402500, 865985000),
 		DRs: func() map[int]DRDef {
@@ -177,6 +177,21 @@ func (r Region) RX1DataRate(dr, off int, downlinkDwell400 bool) (int, bool) {
 				return clamp(dr-off, 0, dr), true
 			}
 		}
+	case "in865":
+		if off < 0 || off > 7 || dr < 0 || dr > 7 || dr == 6 {
+			return 0, false
+		}
+		if off >= 6 {
+			if dr == 7 {
+				return 7, true
+			}
+			return clamp(dr+off-5, 0, 5), true
+		}
+		v := clamp(dr-off, 0, 7)
+		if v == 6 {
+			v = 5 // DR6 is RFU in IN865
+		}
+		return v, true
 	case "us":
 		if dr >= 0 && dr <= 4 && off >= 0 && off <= 3 {
 			return clamp(10+dr-off, 8, 13), true
@@ -214,7 +229,7 @@ type LinkADR struct {
 // rejected by a conformant device (it enables a channel the device does not
 // know, or uses an RFU ChMaskCntl).
 func ApplyLinkADR(plan string, device []int, known func(int) bool, cmds []LinkADR) ([]int, string) {
-	size := map[string]int{"dynamic": 16, "fixed72": 72, "fixed96": 96}[plan]
+	size := map[string]int{"dynamic": 16, "dynamic-extended": 96, "fixed72": 72, "fixed96": 96}[plan]
 	en := make([]bool, size)
 	for _, c := range device {
 		if c >= 0 && c < size {
@@ -253,6 +268,22 @@ func ApplyLinkADR(plan string, device []int, known func(int) bool, cmds []LinkAD
 			case 0:
 				block(0, 16)
 			case 6:
+				for i := 0; i < size; i++ {
+					if known(i) {
+						en[i] = true
+					}
+				}
+			default:
+				err = "RFU ChMaskCntl"
+			}
+		case "dynamic-extended":
+			// a dynamic plan the library has let grow beyond the 16 channels of the
+			// Regional Parameters: block k is addressed with ChMaskCntl k (the generic
+			// rule of the 96-channel plan), 6 switches every defined channel on
+			switch {
+			case cmd.ChMaskCntl >= 0 && cmd.ChMaskCntl <= 5:
+				block(16*cmd.ChMaskCntl, 16)
+			case cmd.ChMaskCntl == 6:
 				for i := 0; i < size; i++ {
 					if known(i) {
 						en[i] = true
